@@ -169,7 +169,7 @@ def HDD(input: Union[str, list, tuple, np.ndarray, binary_sequence], M: int):
     else:
         raise TypeError("`input` must be of type (str, list, tuple, ndarray, binary_sequence)")
 
-    if not M & (M-1) == 0:
+    if M < 1 or not M & (M-1) == 0:
         raise ValueError("`M` must be a power of 2.")
 
     if input.size % M != 0:
@@ -229,7 +229,7 @@ def SDD(input: electrical_signal, M: int) -> binary_sequence:
     """
     tic()
 
-    if not M & (M-1) == 0:
+    if M < 1 or not M & (M-1) == 0:
         raise ValueError("`M` must be a power of 2.")
     
     if isinstance(input, electrical_signal):
